@@ -48,11 +48,23 @@ type propSpec struct {
 var storeReal = []string{"fracmanager (FracManager, loader, proxyFrac, Searcher, Fetcher, AsyncSearcher, CacheMaintainer)", "frac (+lids, token, processor)", "disk", "cache", "storeapi.GrpcV1", "bytespool", "seq", "parser", "node", "pattern", "zstd (cgo)"}
 var storeStub = []string{"disk = simos (in-memory FS, ordered-journal durability model)", "clock/timers = synctest fake clock", "goroutine scheduling = verifsim seeded scheduler", "gRPC server/sockets not run (handlers called directly)", "logger = in-memory sink"}
 
+var storeAssume = []string{"power-loss images are prefixes of the namespace journal plus per-file prefixes of unsynced writes with an optionally torn next write (ordered-journal file system); reads are not corrupted", "documents carry pre-tokenised metas as the proxy produces them; queries are the model's subset of seq-ql (exact, wildcard, numeric range, in, exists, and/or/not)"}
+
+func storeProp(level string, quick, thorough int, rule string) propSpec {
+	return propSpec{Engine: "storesim", Level: level, Batch: 1, QuickSec: quick, ThorSec: thorough, Rule: rule, Assume: storeAssume, Real: storeReal, Stub: storeStub}
+}
+
+const ntRule = "; non-trivial = at least one fault fired or the seeded scheduler pre-empted a runnable task; distinct = distinct (interleaving hash, event-log digest)"
+
 var props = map[string]propSpec{
-	"C01": {Engine: "storesim", Level: "fault_enumeration", Batch: 1, QuickSec: 50, ThorSec: 900,
-		Rule: "one case = seeded ingest history (1-4 rounds of concurrent bulks/searches/fetches) + planned crash point (k-th write/sync/any mutating disk op on .docs/.meta, power-loss image with torn tail or process exit) + restart + validation against the model; non-trivial = at least one fault fired or the seeded scheduler pre-empted a runnable task; distinct = distinct (interleaving hash, event-log digest)",
-		Assume: []string{"power-loss images are prefixes of the namespace journal plus per-file prefixes of unsynced writes with an optionally torn next write (ordered-journal file system); reads are not corrupted", "documents carry pre-tokenised metas as the proxy produces them"},
-		Real:   storeReal, Stub: storeStub},
+	"C01": storeProp("fault_enumeration", 50, 900, "one case = seeded ingest history (1-4 rounds of concurrent bulks/searches/fetches) + planned crash point (k-th write/sync/any mutating disk op on .docs/.meta, power-loss image with lost/torn tail, or process exit) + restart + validation against the model after every round"+ntRule),
+	"C03": storeProp("exploration", 45, 900, "one case = seeded corpus ingested into one fraction; the same battery (exact/wildcard/range/boolean searches both orders, limits, totals, histograms, aggregations, fetch lists with absent ids) is answered by the active fraction, the freshly sealed (preloaded) one, the one loaded from files after restart, after cache reset and during timer-driven cache eviction with readers overlapping; every answer must equal the model (hence each other); knob swarm over DocBlockSize, zstd level, SkipSortDocs, cache size 4KiB..256MiB"+ntRule),
+	"C07": storeProp("exploration", 50, 900, "one case = 1-4 writer and 1-4 reader clients (search+immediate fetch of hits, fetch of absent/border ids) concurrent with the real maintenance loop (rotate->seal->release, retention in a third of the runs) and cache cleaner; seeded scheduler pre-empts at every lock/channel/wait and at statement level in the index-update code; per-request soundness checks inside readers, full model equality once writers are idle"+ntRule),
+	"C08": storeProp("fault_enumeration", 50, 900, "one case = seeded corpus, then a seal (forced, size-triggered by the maintenance loop, or on graceful stop) with one planned fault: crash/process-exit at the k-th mutating disk operation of the seal (64 consecutive seeds walk k=1..64 over the same corpus), or the k-th write/sync/rename/create on the index/sorted-docs output failing with EIO/ENOSPC/short write; validation right after the seal (if the process survived) and after restart"+ntRule),
+	"C14": storeProp("exploration", 45, 600, "one case = documents timestamped -72h..+3h relative to the simulated clock (around the 10-minute rule, the 24h clip and minute-bucket borders), clock jumps of hours between fractions, seal, restart with present/deleted/garbled/stale .frac-cache; battery of range queries whose ends fall on/around document timestamps and bucket borders, compared with the model that examines every document"+ntRule),
+	"C15": storeProp("fault_enumeration", 50, 900, "one case = 2-5 rounds of sequential bulks with small FracSize/TotalSize so that create->rotate->seal->retention->.frac-cache cycle, a planned crash at the k-th create/rename/remove/dirsync/any mutating op per round, power loss/kill/stop, optional .frac-cache tampering; after every restart: store comes up, every known fraction is wholly served or wholly gone, served ones are the newest, fractions with .del files in the image never serve again"+ntRule),
+	"C17": storeProp("exploration", 45, 600, "one case = history of bulks with re-deliveries (whole-bulk repeats, partial overlaps with new documents, documents of several earlier bulks, the same bulk by two clients concurrently), validation on the active fraction, after seal and after restart/replay; set-semantics model; totals/histograms/aggregations/DocsTotal strict while all copies sit in one fraction"+ntRule),
+	"C19": storeProp("fault_enumeration", 45, 600, "one case = 2-5 fractions (active+sealed), 1-3 asynchronous searches (query+histogram+aggregations), planned crash at the k-th rename of *.qpr / *.info, write to *.tmp or any mutating op, power loss/kill/stop, restart; the request must be known, finish within one simulated hour and equal the synchronous search and the model"+ntRule),
 }
 
 type knownEntry struct {
